@@ -249,6 +249,21 @@ func (w *world) handler(kind string) fox.HandlerFunc {
 			cw.Close()
 		}
 		cl := c.Clone()
+		// the handler goes on editing the live request in place (redacting a header, rewriting the URL): the copy keeps
+		// what it was given
+		if lr := c.Request(); lr != nil && lr.URL != nil && lr.Header != nil {
+			oldTok, hadTok := lr.Header["X-Token"]
+			oldPath, oldRawPath, oldQuery := lr.URL.Path, lr.URL.RawPath, lr.URL.RawQuery
+			lr.Header.Set("X-Token", "edited-in-place")
+			lr.URL.Path, lr.URL.RawPath, lr.URL.RawQuery = "/edited/in/place", "", "t=edited-in-place"
+			verify(cl, e, "clone, after the live request was edited in place")
+			if hadTok {
+				lr.Header["X-Token"] = oldTok
+			} else {
+				lr.Header.Del("X-Token")
+			}
+			lr.URL.Path, lr.URL.RawPath, lr.URL.RawQuery = oldPath, oldRawPath, oldQuery
+		}
 		w.mu.Lock()
 		if len(w.clones) < 4000 {
 			w.clones = append(w.clones, held{cl, e, wr.Status(), wr.Size(), wr.Written(), fmt.Sprint(wr.Header())})
